@@ -520,3 +520,94 @@ Proof.
     cbn in Hp; apply negb_false_iff in Hp; apply status_eqb_eq in Hp; auto.
 Qed.
 
+(* ---- exit_on_skipped: the trigger of a skipped instance carries exit code 1 --------------------------- *)
+(* positions after a failed dependency wait, with the exit code the instance will hand to the project *)
+Definition skipcode_pc (p : ipc) : bool :=
+  match p with
+  | ISkipDecided | ICodeSet | ILeaving | IWgDone | IGone => true
+  | IEnding SSkipped c | IInEnd SSkipped c _ | IProjEnd c true | ITriggered c => Z.eqb c 1
+  | _ => false
+  end.
+
+Lemma trans_skipcode e p p' : pc_trans e p p' = true -> skipcode_pc p = true -> skipcode_pc p' = true.
+Proof.
+  intros H N. trans_cases H; cbn in *; try discriminate; auto; subst; auto.
+  destruct skipped; [exact N|discriminate N].
+Qed.
+
+Definition Off1 (th : tid) (i : iid) (s : sys) : Prop :=
+  get th (thinst s) = Some i /\ exists x, get i (insts s) = Some x /\ skipcode_pc (pc x) = true.
+
+Lemma Off1_step th i s e s' : step s e = Some s' -> Off1 th i s -> Off1 th i s'.
+Proof.
+  intros H (Ht & x & Ex & Hp). split; [eapply step_thinst; eauto|].
+  destruct e as [th' e]. unfold step in H. cbn [fst snd] in H.
+  pose proof (flush_pc th' s i) as F. rewrite Ex in F. destruct F as (x0 & Ex0 & _ & Hp0).
+  destruct (is_new e) eqn:Hn.
+  - destruct e; try discriminate Hn. destruct (step_core_new _ _ _ _ _ H) as (Hfresh & c & _ & ->).
+    exists x0. cbn. rewrite get_set_other by congruence. split; [exact Ex0|congruence].
+  - pose proof (step_core_pc _ _ _ _ Hn H i) as M. rewrite Ex0 in M. destruct M as (y & Ey & _ & Hpc & _).
+    exists y. split; [exact Ey|]. destruct Hpc as [->|[_ Tr]]; [congruence|].
+    eapply trans_skipcode; [exact Tr|congruence].
+Qed.
+
+Lemma Off1_accept th i evs : forall s s', accept s evs = Some s' -> Off1 th i s -> Off1 th i s'.
+Proof.
+  induction evs as [|e evs IH]; intros s s' H HO; cbn in H; [now injection H as <-|].
+  destruct (step s e) as [s1|] eqn:Es; [|discriminate]. eapply IH; eauto using Off1_step.
+Qed.
+
+Lemma depfail_Off1 s th k s' : step s (th, EDepDone k false) = Some s' -> exists i, Off1 th i s'.
+Proof.
+  intros H. unfold step in H. cbn [fst snd] in H.
+  pose proof H as H0. cbn in H0. unfold step_own, own_inst in H0.
+  destruct (get th (thinst (flush th s))) as [i|] eqn:Et; [|discriminate].
+  destruct (get i (insts (flush th s))) as [x|] eqn:Ex; [|discriminate]. clear H0.
+  exists i. split.
+  - destruct (step_core_thinst _ _ _ _ H) as [->|(? & ? & _)]; [exact Et|discriminate].
+  - pose proof (step_core_pc _ th (EDepDone k false) _ eq_refl H i) as M. rewrite Ex in M. destruct M as (y & Ey & _ & _ & Ht).
+    exists y. split; [exact Ey|]. specialize (Ht eq_refl Et).
+    destruct (pc x); try discriminate Ht. destruct (pc y); try discriminate Ht. reflexivity.
+Qed.
+
+(* if the instance of a thread that logged a failed dependency wait fires an exit trigger
+   (exit_on_skipped), the trigger carries exit code 1 *)
+Theorem C05_trigger_code_lemma : forall cs ord p1 th k p2 c p3 s,
+  accept (init cs ord) (p1 ++ (th, EDepDone k false) :: p2 ++ (th, EExitTrigger c) :: p3) = Some s -> c = 1%Z.
+Proof.
+  intros cs ord p1 th k p2 c p3 s H.
+  rewrite accept_app in H. destruct (accept (init cs ord) p1) as [s1|]; [|discriminate H]. cbn [accept] in H.
+  destruct (step s1 (th, EDepDone k false)) as [s2|] eqn:E2; [|discriminate H].
+  rewrite accept_app in H. destruct (accept s2 p2) as [s3|] eqn:E3; [|discriminate H]. cbn [accept] in H.
+  destruct (step s3 (th, EExitTrigger c)) as [s4|] eqn:E4; [|discriminate H]. clear H.
+  destruct (depfail_Off1 _ _ _ _ E2) as (i & HO). apply (Off1_accept th i p2 _ _ E3) in HO.
+  destruct HO as (Ht & x & Ex & Hp).
+  unfold step in E4. cbn [fst snd] in E4. cbn in E4. unfold step_own, own_inst in E4.
+  rewrite flush_thinst, Ht in E4. pose proof (flush_pc th s3 i) as F. rewrite Ex in F. destruct F as (x0 & Ex0 & _ & Hp0).
+  rewrite Ex0 in E4. rewrite <- Hp0 in Hp. destruct (pc x0) eqn:Epc; try discriminate E4.
+  break_step E4. split_andb. cbn in Hp. destruct skipped; [|discriminate Hp]. apply Z.eqb_eq in Hp. congruence.
+Qed.
+
+(* ... and only a process configured with exit_on_skipped fires it *)
+Theorem C05_trigger_conf_lemma : forall cs ord p1 th k p2 c p3 s,
+  accept (init cs ord) (p1 ++ (th, EDepDone k false) :: p2 ++ (th, EExitTrigger c) :: p3) = Some s ->
+  exists s3 i x, accept (init cs ord) (p1 ++ (th, EDepDone k false) :: p2) = Some s3 /\
+                 get th (thinst s3) = Some i /\ get i (insts s3) = Some x /\ on_skipped (cf x) = true.
+Proof.
+  intros cs ord p1 th k p2 c p3 s H.
+  change (p1 ++ (th, EDepDone k false) :: p2 ++ (th, EExitTrigger c) :: p3)
+    with (p1 ++ ((th, EDepDone k false) :: p2) ++ (th, EExitTrigger c) :: p3) in H.
+  rewrite app_assoc, accept_app in H.
+  destruct (accept (init cs ord) (p1 ++ (th, EDepDone k false) :: p2)) as [s3|] eqn:E3; [|discriminate H].
+  cbn [accept] in H. destruct (step s3 (th, EExitTrigger c)) as [s4|] eqn:E4; [|discriminate H]. clear H.
+  pose proof E3 as E3'. rewrite accept_app in E3'.
+  destruct (accept (init cs ord) p1) as [s1|]; [|discriminate E3']. cbn [accept] in E3'.
+  destruct (step s1 (th, EDepDone k false)) as [s2|] eqn:E2; [|discriminate E3'].
+  destruct (depfail_Off1 _ _ _ _ E2) as (i & HO). apply (Off1_accept th i p2 _ _ E3') in HO.
+  destruct HO as (Ht & x & Ex & Hp).
+  exists s3, i, x. repeat split; auto.
+  unfold step in E4. cbn [fst snd] in E4. cbn in E4. unfold step_own, own_inst in E4.
+  rewrite flush_thinst, Ht in E4. pose proof (flush_insts th s3 i) as F. rewrite Ex in F. destruct F as (x0 & Ex0 & L).
+  destruct L as (_ & Hcf & Hp0 & _). rewrite Ex0 in E4. rewrite <- Hp0 in Hp. destruct (pc x0) eqn:Epc; try discriminate E4.
+  break_step E4. split_andb. cbn in Hp. destruct skipped; [|discriminate Hp]. cbn in *. congruence.
+Qed.
